@@ -447,7 +447,110 @@ class DeepLiftShap(Contract):
         return {2: trivial, 3: outer, 4: inner, 5: trivial}
 
 
+# ------------------------------------------------------------------------------------------------
+# C07: the per-module hook functions.  Ghost state of a module: sizes nf / np / nb of its three hook
+# dictionaries and how many of those entries deep_lift_shap put there (dls_f / dls_p / dls_b).
+# Representation invariant HOOKS_OWNED(module): the live DeepLIFT hooks on the module are exactly the
+# live handles listed in module.handles (none if the attribute is absent).
+
+def make_module(A, n_handles, name='module'):
+    """a module whose handles attribute is absent (None) or lists n_handles live DeepLIFT handles,
+    registered in the order forward, forward-pre, backward"""
+    g = {k: A.int('%s.%s' % (name, k), lo=0) for k in ('nf', 'np', 'nb')}
+    k = n_handles or 0
+    g['dls_f'], g['dls_p'], g['dls_b'] = int(k >= 1), int(k >= 2), int(k >= 3)
+    # the DeepLIFT entries are among the entries of the dictionaries
+    A.assume(g['nf'] >= g['dls_f'], g['np'] >= g['dls_p'], g['nb'] >= g['dls_b'])
+    sup = A.bool(name + '.is_supported_op')
+    g_user = (g['nf'], g['np'], g['nb'])
+
+    def conc(model):
+        from vf.models import HookModuleSpec
+        from vf.concrete import eval_int
+        ev = lambda t: t if isinstance(t, int) else eval_int(model, t)
+        return HookModuleSpec(z3.is_true(model.eval(sup, model_completion=True)), min(ev(g_user[0]) - int(k >= 1), 3), min(ev(g_user[1]) - int(k >= 2), 3),
+                              min(ev(g_user[2]) - int(k >= 3), 3), n_handles).build()
+    attrs = {'ghost': g, 'ghost0': dict(g), '_NON_LINEAR_OPS': {}, 'isinstance_of_supported_ops': sup, 'concretize': conc}
+    mod = Opaque(name, 'nn_module', attrs)
+    if n_handles is not None:
+        order = [('nf', 'dls_f'), ('np', 'dls_p'), ('nb', 'dls_b')]
+        attrs['handles'] = [Opaque('handle', 'hook_handle', {'module': mod, 'size': order[i][0], 'dls': order[i][1], 'live': True}) for i in range(k)]
+    return mod
+
+
+def hooks_owned(mod):
+    """HOOKS_OWNED: every live DeepLIFT hook of the module is reachable from module.handles"""
+    g = mod.attrs['ghost']
+    hs = mod.attrs.get('handles')
+    live = [h for h in (hs or []) if isinstance(h, Opaque) and h.attrs.get('live') and h.attrs.get('dls')]
+    out = []
+    for dls in ('dls_f', 'dls_p', 'dls_b'):
+        out.append(('live-deeplift-hooks-are-listed-in-handles:' + dls, O.eq(g[dls], sum(1 for h in live if h.attrs['dls'] == dls))))
+    return out
+
+
+class RegisterHooks(Contract):
+    """C07: _register_hooks keeps HOOKS_OWNED on a module that has none or a complete set of DeepLIFT hooks
+    (so visiting a shared module twice cannot orphan the first registration) and leaves other entries of
+    the hook dictionaries alone."""
+    qualname = 'tangermeme.deep_lift_shap._register_hooks'
+    props = ('C07',)
+
+    def configs(self):
+        return [dict(handles=None), dict(handles=3)]
+
+    def cfg_name(self, cfg):
+        return 'handles=%s' % ('absent' if cfg['handles'] is None else cfg['handles'])
+
+    needs_after_state = True
+
+    def make_args(self, cfg, A):
+        return [make_module(A, cfg['handles'])], {}
+
+    def post(self, a, r, cfg):
+        g0 = a.module.attrs['ghost0']
+        mod = getattr(a, '_after', a).module
+        g = mod.attrs['ghost']
+        out = hooks_owned(mod)
+        user = lambda gg: [gg['nf'] - gg['dls_f'], gg['np'] - gg['dls_p'], gg['nb'] - gg['dls_b']]
+        out.append(('other-hooks-untouched', And(*[O.eq(x, y) for x, y in zip(user(g), user(g0))])))
+        # (which modules get hooks - supported layers without a backward hook - is not part of C07 and is
+        # deliberately not fixed here; only that whatever is registered stays owned)
+        return out
+
+
+class ClearHooks(Contract):
+    """C07: after _clear_hooks no DeepLIFT hook is left on a module satisfying HOOKS_OWNED (complete, partial
+    or no registration), the handles attribute is gone, other hooks are untouched."""
+    qualname = 'tangermeme.deep_lift_shap._clear_hooks'
+    props = ('C07',)
+
+    def configs(self):
+        return [dict(handles=h) for h in (None, 0, 1, 2, 3)]
+
+    def cfg_name(self, cfg):
+        return 'handles=%s' % ('absent' if cfg['handles'] is None else cfg['handles'])
+
+    needs_after_state = True
+
+    def make_args(self, cfg, A):
+        return [make_module(A, cfg['handles'])], {}
+
+    def post(self, a, r, cfg):
+        g0 = a.module.attrs['ghost0']
+        mod = getattr(a, '_after', a).module
+        g = mod.attrs['ghost']
+        out = [('no-deeplift-hook-left', And(O.eq(g['dls_f'], 0), O.eq(g['dls_p'], 0), O.eq(g['dls_b'], 0)))]
+        user = lambda gg: [gg['nf'] - gg['dls_f'], gg['np'] - gg['dls_p'], gg['nb'] - gg['dls_b']]
+        out.append(('other-hooks-untouched', And(*[O.eq(x, y) for x, y in zip(user(g), user(g0))])))
+        if cfg['handles']:
+            out.append(('handles-attribute-removed', 'handles' not in mod.attrs))
+        return out + hooks_owned(mod)
+
+
 def register(world):
     world.register(HypotheticalAttributions())
     world.register(Nonlinear())
     world.register(DeepLiftShap())
+    world.register(RegisterHooks())
+    world.register(ClearHooks())
